@@ -43,33 +43,38 @@ INVARIANTS = ["TypeOK", "Antecedent", "ReceiverComplete", "NoLoss", "SenderSound
 SPACES = {
     # negotiation: every DAG on 3 commits, one tree, no tags; sender heads x receiver heads x wants
     # x ack mode x "sender keeps unreferenced objects" x forged wants; have/ACK interleavings
-    "neg3": dict(NC=3, NTP=1, NT=0, MaxWants=2, Modes=ALL_MODES, IncTag="{FALSE}", Thin="{FALSE}",
+    "neg3": dict(NC=3, NTP=1, NT=0, MaxHeads=3, MaxWants=2, Modes=ALL_MODES, IncTag="{FALSE}", Thin="{FALSE}",
                  SFull="{FALSE, TRUE}", Forge="TRUE", MaxInVain=2, AtomicNeg="FALSE", PopAny="FALSE"),
-    # object graph: 2 commits x all 25 root-tree assignments (shared blobs, shared / nested subtrees,
-    # gitlink) x <= 1 tag (of a commit / tree / blob) x include-tag x thin-pack
-    "obj2": dict(NC=2, NTP=5, NT=1, MaxWants=2, Modes='{"detailed"}', IncTag="{FALSE, TRUE}", Thin="{TRUE}",
+    # object graph: 2 commits x all 16 root-tree assignments over 4 pool trees (shared blobs, shared
+    # subtree, gitlink) x <= 1 tag (of a commit / tree / blob) x include-tag x thin-pack
+    "obj2": dict(NC=2, NTP=4, NT=1, MaxHeads=2, MaxWants=2, Modes='{"detailed"}', IncTag="{FALSE, TRUE}", Thin="{TRUE}",
                  SFull="{FALSE}", Forge="FALSE", MaxInVain=2, AtomicNeg="TRUE", PopAny="FALSE"),
     # MissingObjectFinder work set popped in every order
-    "pop2": dict(NC=2, NTP=5, NT=1, MaxWants=1, Modes='{"detailed"}', IncTag="{TRUE}", Thin="{FALSE}",
+    "pop2": dict(NC=2, NTP=4, NT=1, MaxHeads=2, MaxWants=1, Modes='{"detailed"}', IncTag="{TRUE}", Thin="{FALSE}",
                  SFull="{FALSE}", Forge="FALSE", MaxInVain=2, AtomicNeg="TRUE", PopAny="TRUE"),
     # ---- thorough only
-    "neg4": dict(NC=4, NTP=1, NT=0, MaxWants=1, Modes=ALL_MODES, IncTag="{FALSE}", Thin="{FALSE}",
+    # every DAG on 4 commits (diamonds, criss-cross), one sender branch
+    "neg4": dict(NC=4, NTP=1, NT=0, MaxHeads=1, MaxWants=1, Modes=ALL_MODES, IncTag="{FALSE}", Thin="{FALSE}",
                  SFull="{FALSE}", Forge="FALSE", MaxInVain=2, AtomicNeg="FALSE", PopAny="FALSE"),
-    "obj3": dict(NC=3, NTP=4, NT=1, MaxWants=2, Modes='{"detailed"}', IncTag="{FALSE, TRUE}", Thin="{TRUE}",
+    # all 5 pool trees (nested subtree) on 2 commits
+    "obj2w": dict(NC=2, NTP=5, NT=1, MaxHeads=2, MaxWants=2, Modes='{"detailed"}', IncTag="{FALSE, TRUE}", Thin="{TRUE}",
+                  SFull="{FALSE}", Forge="FALSE", MaxInVain=2, AtomicNeg="TRUE", PopAny="FALSE"),
+    "obj3": dict(NC=3, NTP=3, NT=1, MaxHeads=3, MaxWants=1, Modes='{"detailed"}', IncTag="{FALSE}", Thin="{TRUE}",
                  SFull="{FALSE}", Forge="FALSE", MaxInVain=2, AtomicNeg="TRUE", PopAny="FALSE"),
-    "tag2": dict(NC=2, NTP=3, NT=2, MaxWants=2, Modes='{"detailed"}', IncTag="{FALSE, TRUE}", Thin="{TRUE}",
-                 SFull="{FALSE, TRUE}", Forge="TRUE", MaxInVain=2, AtomicNeg="TRUE", PopAny="FALSE"),
-    "pop3": dict(NC=2, NTP=5, NT=2, MaxWants=1, Modes='{"detailed"}', IncTag="{TRUE}", Thin="{FALSE}",
+    # tag chains: <= 2 tags, the second may tag the first
+    "tag2": dict(NC=2, NTP=2, NT=2, MaxHeads=2, MaxWants=2, Modes='{"detailed"}', IncTag="{FALSE, TRUE}", Thin="{TRUE}",
+                 SFull="{FALSE}", Forge="FALSE", MaxInVain=2, AtomicNeg="TRUE", PopAny="FALSE"),
+    "pop3": dict(NC=2, NTP=3, NT=2, MaxHeads=2, MaxWants=1, Modes='{"detailed"}', IncTag="{TRUE}", Thin="{FALSE}",
                  SFull="{FALSE}", Forge="FALSE", MaxInVain=2, AtomicNeg="TRUE", PopAny="TRUE"),
 }
 NEGATIVE = {   # name -> (constants, invariant that must be reported violated)
-    "nc_parents": (dict(NC=2, NTP=3, NT=1, MaxWants=1, Modes='{"detailed"}', IncTag="{FALSE}", Thin="{FALSE}",
+    "nc_parents": (dict(NC=2, NTP=3, NT=1, MaxHeads=2, MaxWants=1, Modes='{"detailed"}', IncTag="{FALSE}", Thin="{FALSE}",
                         SFull="{FALSE}", Forge="FALSE", MaxInVain=2, AtomicNeg="TRUE", PopAny="FALSE",
                         Bug='"RemoteHasParents"'), "ReceiverComplete"),
-    "nc_tagged": (dict(NC=2, NTP=3, NT=1, MaxWants=1, Modes='{"detailed"}', IncTag="{TRUE}", Thin="{FALSE}",
+    "nc_tagged": (dict(NC=2, NTP=3, NT=1, MaxHeads=2, MaxWants=1, Modes='{"detailed"}', IncTag="{TRUE}", Thin="{FALSE}",
                        SFull="{FALSE}", Forge="FALSE", MaxInVain=2, AtomicNeg="TRUE", PopAny="FALSE",
                        Bug='"TaggedAny"'), "SenderSound"),
-    "nc_wants": (dict(NC=2, NTP=3, NT=1, MaxWants=1, Modes='{"detailed"}', IncTag="{FALSE}", Thin="{FALSE}",
+    "nc_wants": (dict(NC=2, NTP=3, NT=1, MaxHeads=2, MaxWants=1, Modes='{"detailed"}', IncTag="{FALSE}", Thin="{FALSE}",
                       SFull="{TRUE}", Forge="TRUE", MaxInVain=2, AtomicNeg="TRUE", PopAny="FALSE",
                       Bug='"NoWantCheck"'), "WantValidation"),
 }
@@ -79,6 +84,11 @@ SITE = {
     ("fetch", "localpack"): "dulwich/client.py:LocalGitClient.fetch_pack",
     ("fetch", "mofapi"): "dulwich/object_store.py:MissingObjectFinder",
     ("fetch", "tcp"): "dulwich/server.py:UploadPackHandler.handle",
+    ("fetch", "http"): "dulwich/client.py:AbstractHttpGitClient.fetch_pack",
+    ("fetch", "githttp"): "dulwich/web.py:handle_service_request",
+    ("clone", "http"): "dulwich/client.py:GitClient.clone",
+    ("push", "http"): "dulwich/client.py:AbstractHttpGitClient.send_pack",
+    ("push", "githttp"): "dulwich/server.py:ReceivePackHandler.handle",
     ("fetch", "gitserver"): "dulwich/client.py:TraditionalGitClient.fetch_pack",
     ("fetch", "gitclient"): "dulwich/server.py:UploadPackHandler.handle",
     ("clone", "local"): "dulwich/client.py:LocalGitClient.clone",
@@ -113,7 +123,20 @@ class Tokens:
                 self.cv.notify_all()
 
 
-TOKENS = Tokens(MAX_TLC_WORKERS)
+TOKENS = Tokens(MAX_TLC_WORKERS - 3)      # enumeration and model checking
+JTOKENS = Tokens(3)                       # judging executed transfers (one worker each): never waits for the former
+
+
+def run_big(spec, cfg, **kw):
+    """a model-checking run that may reach millions of states: bounded heap, state queue and
+    fingerprints spill to the disk, not to /dev/shm (which is RAM)"""
+    import shutil
+    meta = os.path.join("/verif/out/tmp", f"c05-tlc-{os.getpid()}-{time.time_ns()}")
+    os.makedirs(meta, exist_ok=True)
+    try:
+        return TOKENS.run(spec, cfg, metadir=meta, java_opts=["-Xmx3g"], **kw)
+    finally:
+        shutil.rmtree(meta, ignore_errors=True)
 
 
 def write_cfg(d, name, consts, *, spec, invariants=(), extra=None):
@@ -200,7 +223,25 @@ def jobs_for_case(ctx, c, space, k, gitfrac, tid0):
         slayout=layout, rlayout=rlayout)
     if c["inctag"] and c["U"]["tg"]:
         job("fetch", "mofapi", caps={"inctag": True}, slayout=layout, rlayout=rlayout)
+    # depth-limited variants of the DAG-focused cases (one step, sometimes a deepening second one)
+    if space.startswith("neg") and (h >> 7) % ctx.pick(5, 3) == 0 and all(w[0] == "c" for w in c["wants"]):
+        d = 1 + (h >> 15) % 2
+        steps = [{"wants": c["wants"], "depth": d}]
+        nxt = (h >> 16) % 4
+        if nxt == 1:
+            steps.append({"wants": c["wants"], "depth": d + 1})
+        elif nxt == 2:
+            steps.append({"wants": c["wants"], "depth": 0x7FFFFFFF})
+        elif nxt == 3:
+            steps.append({"wants": [["c", i] for i in c["sh"]], "depth": 0})
+        tr = ["local", "localpack", "tcp", "gitserver", "gitclient", "http", "githttp", "tcp"][(h >> 18) % 8]
+        caps = {"mode": c["mode"]} if tr in ("tcp", "gitserver", "http") else {}
+        job("fetch", tr, caps=caps, steps=steps, depth=d, slayout=layout, rlayout="loose")
     g = (h >> 13) % gitfrac
+    if g == 4:
+        job("fetch", "http", caps={"mode": c["mode"], "nodone": bool((h >> 11) & 1)}, slayout=layout, rlayout=rlayout)
+    elif g == 5:
+        job("fetch", "githttp", slayout=layout, rlayout=rlayout)
     if g == 0:
         job("fetch", "gitserver", caps={"mode": c["mode"], "inctag": c["inctag"], "thin": c["thin"] and bool((h >> 17) & 1),
                                         "ofs": bool((h >> 18) & 1), "sideband": bool((h >> 19) & 1),
@@ -209,9 +250,9 @@ def jobs_for_case(ctx, c, space, k, gitfrac, tid0):
         job("fetch", "gitclient", caps={"inctag": c["inctag"], "v2": bool((h >> 20) & 1),
                                         "keep_pack": bool((h >> 21) & 1)}, slayout=layout, rlayout=rlayout)
     elif g == 2:
-        job("push", ["local", "tcp", "gitserver", "gitclient"][(h >> 22) % 4], slayout=layout, rlayout=rlayout)
+        job("push", ["local", "tcp", "gitserver", "gitclient", "http", "githttp"][(h >> 22) % 6], slayout=layout, rlayout=rlayout)
     elif g == 3 and not c["rh"] and not c["rt"]:
-        job("clone", ["local", "tcp", "gitserver", "gitclient"][(h >> 22) % 4], slayout=layout)
+        job("clone", ["local", "tcp", "gitserver", "gitclient", "http"][(h >> 22) % 5], slayout=layout)
     return out
 
 
@@ -284,10 +325,11 @@ def long_case(n_private, n_common, both_heads):
 def extra_jobs(ctx):
     rng = ctx.rng
     out = []
-    n_rand = ctx.pick(80, 1500)
+    n_rand = ctx.pick(60, 1500)
     transports = [("fetch", "local"), ("fetch", "localpack"), ("fetch", "mofapi"), ("fetch", "tcp"), ("fetch", "tcp"), ("fetch", "gitserver"),
-                  ("fetch", "gitclient"), ("push", "local"), ("push", "tcp"), ("push", "gitserver"), ("push", "gitclient"),
-                  ("clone", "local"), ("clone", "tcp"), ("clone", "gitserver"), ("clone", "gitclient")]
+                  ("fetch", "gitclient"), ("fetch", "http"), ("fetch", "githttp"),
+                  ("push", "local"), ("push", "tcp"), ("push", "gitserver"), ("push", "gitclient"), ("push", "http"), ("push", "githttp"),
+                  ("clone", "local"), ("clone", "tcp"), ("clone", "gitserver"), ("clone", "gitclient"), ("clone", "http")]
     for i in range(n_rand):
         c = random_case(rng)
         for op, tr in rng.sample(transports, ctx.pick(2, 3)):
@@ -300,7 +342,36 @@ def extra_jobs(ctx):
             j.update(op=op, transport=tr, caps=caps, space="random", gitcheck=int(rng.random() < 0.5),
                      slayout=rng.choice(["loose", "gitpack", "gitpack", "bitmap"]),
                      rlayout=rng.choice(["loose", "loose", "gitpack"]))
+            if op in ("fetch", "clone") and tr != "mofapi" and rng.random() < 0.35:
+                # depth-limited, then perhaps deepened / unshallowed / followed by an ordinary fetch
+                d = rng.randint(1, 3)
+                steps = [{"wants": c["wants"], "depth": d}]
+                if op == "fetch":
+                    nxt = rng.choice(["", "deepen", "unshallow", "plain", "plain"])
+                    if nxt == "deepen":
+                        steps.append({"wants": c["wants"], "depth": d + rng.randint(1, 2)})
+                    elif nxt == "unshallow":
+                        steps.append({"wants": c["wants"], "depth": 0x7FFFFFFF})
+                    elif nxt == "plain":
+                        steps.append({"wants": [["c", i] for i in c["sh"]], "depth": 0})
+                j.update(steps=steps, depth=d, rlayout="loose")
             out.append(j)
+    # depth-limited fetch by a client with a private history: several unacknowledged haves go out
+    # while the server's shallow-info section is already waiting to be read
+    for (npriv, depth) in ctx.pick([(6, 1), (6, 2)], [(6, 1), (6, 2), (12, 1), (3, 2), (20, 3)]):
+        par = [[], [1], [2], [1]] + [[i] for i in range(4, 3 + npriv)]
+        n = len(par)
+        base = {"U": {"par": par, "tr": [1 + (i % 3) for i in range(n)], "ent": POOL, "lnk": POOL_LINK, "tg": []},
+                "sh": [3], "full": 0, "rh": [n], "rt": [], "wants": [["c", 3]], "forged": 0}
+        for tr in ("tcp", "gitserver", "http", "gitclient", "local"):
+            for mode in (("detailed",) if ctx.quick or tr in ("gitclient", "local") else ("detailed", "multi")):
+                j = dict(base)
+                steps = [{"wants": [["c", 3]], "depth": depth}]
+                if not ctx.quick:
+                    steps.append({"wants": [["c", 3]], "depth": 0x7FFFFFFF})
+                j.update(op="fetch", transport=tr, caps={"mode": mode} if tr != "gitclient" else {}, space="shallow",
+                         gitcheck=1, steps=steps, depth=depth)
+                out.append(j)
     for (npriv, ncom, both) in ctx.pick([(270, 3, True), (40, 2, False)], [(270, 3, True), (300, 2, False), (600, 4, True), (40, 2, False)]):
         c = long_case(npriv, ncom, both)
         for tr in ("tcp", "local", "gitserver"):
@@ -312,7 +383,8 @@ def extra_jobs(ctx):
 
 
 # --------------------------------------------------------------------------- judge
-TRACE_KEYS = ("tid", "U", "op", "snd", "rcv", "sstore", "srefs", "r0", "rtips0", "r1", "rtips1", "runk", "idbad", "gitok",
+TRACE_KEYS = ("tid", "U", "op", "snd", "rcv", "sstore", "srefs", "r0", "rtips0", "shal0", "depth", "r1", "rtips1", "shal1",
+              "runk", "idbad", "gitok",
               "wants", "mwants", "forged", "inctag", "ok", "cap", "sent", "sunk", "thin", "hk", "haves", "mode", "srv", "cli",
               "rheads", "miv")
 
@@ -336,7 +408,7 @@ def judge(ctx, d, recs, label, nproc=3):
             with open(path, "w") as f:
                 for r in ch:
                     f.write(json.dumps({k: r[k] for k in TRACE_KEYS}, separators=(",", ":")) + "\n")
-            futs.append((ch, ex.submit(TOKENS.run, "TransferTrace.tla", "TransferTrace.cfg", workers=1, timeout=3000,
+            futs.append((ch, ex.submit(JTOKENS.run, "TransferTrace.tla", "TransferTrace.cfg", workers=1, timeout=3000,
                                        env={"TRACE_FILE": path})))
         out = {}
         for i, (ch, fu) in enumerate(futs):
@@ -355,25 +427,51 @@ def size_key(j):
     return (len(u["par"]), len(u["tg"]), len(j["wants"]), len(j["rh"]) + len(j["rt"]), sum(map(len, u["par"])), len(j["sh"]))
 
 
+def steps_key(j, r):
+    if not j.get("steps") and not r.get("depth"):
+        return ""
+    st = j.get("steps") or [{"wants": j["wants"], "depth": j.get("depth", 0)}]
+    out = []
+    for k, x in enumerate(st[:r["step"] + 1]):
+        d = x.get("depth", 0)
+        out.append(("unshallow" if d >= 0x7FFFFFFF else f"depth={d}" if d else "plain") + ":" +
+                   ",".join(f"{o[0]}{o[1]}" for o in x["wants"]))
+    return " steps=" + ";".join(out)
+
+
+SHALLOW_LOOP_SIG = ("dulwich/client.py:_handle_upload_pack_head|ReceiverComplete|depth-limited fetch over a stateful transport "
+                    "(git://, subprocess) by a client that has heads to offer: shallow-info lines are read and dropped by "
+                    "the have loop, .git/shallow misses boundary commits")
+
+
 def report(ctx, jobs, recs, verdicts):
     """turn verdicts into VIOLATION / SPEC-DRIFT / machinery errors; returns counters"""
-    cnt = {"ok": 0, "failed_transfers": 0, "violations": 0, "drift": 0}
+    cnt = {"ok": 0, "failed_transfers": 0, "violations": 0, "drift": 0, "after_failed_step": 0}
     spec_bugs, viol, drift = [], {}, {}
     fails = {}
-    for r in recs:
+    bad_jobs = set()             # jobs with a step that already violated: later steps start outside the antecedent
+    for r in sorted(recs, key=lambda r: r["tid"]):
         j = jobs[r["tid"]]
         clause, shape, detail = verdicts[r["tid"]]
         ctx.count()
         ctx.validated()
         if not r["ok"] and not j.get("forged"):
             cnt["failed_transfers"] += 1
-            k = f"{j['op']}/{j['transport']}/{caps_key(j)}: {r['err'][:90]}"
+            k = f"{j['op']}/{j['transport']}/{caps_key(j)}{' step ' + str(r['step']) if r['step'] else ''}" \
+                f"{' depth' if r['depth'] else ''}{' shallow-receiver' if r['shal0'] else ''}: {r['err'][:90]}"
             fails[k] = fails.get(k, 0) + 1
+        if clause == "Antecedent" and r["step"] > 0 and j["tid"] in bad_jobs:
+            cnt["after_failed_step"] += 1
+            continue
         if clause.startswith("SpecVsGit") or clause == "Antecedent":
             spec_bugs.append((clause, j, r, detail))
             continue
         if clause != "ok":
-            g = (SITE[(j["op"], j["transport"])], clause)
+            bad_jobs.add(j["tid"])
+            if clause.startswith("ReceiverComplete") and r["info"].get("shallow_in_have_loop"):
+                g = ("dulwich/client.py:_handle_upload_pack_head", "shallow-info")
+            else:
+                g = (SITE[(j["op"], j["transport"])], clause)
             viol.setdefault(g, []).append((j, r, detail))
         elif shape != "ok":
             g = (SITE[(j["op"], j["transport"])], shape.split("@")[0])
@@ -381,14 +479,22 @@ def report(ctx, jobs, recs, verdicts):
         else:
             cnt["ok"] += 1
             if r["ok"] and (r["cap"] and r["sent"] or r["r1"] != r["r0"]):
-                ctx.nontrivial((case_key(j), j["op"], j["transport"], caps_key(j)))
+                ctx.nontrivial((case_key(j), j["op"], j["transport"], caps_key(j), r["step"], r["depth"]))
     if spec_bugs:
         clause, j, r, detail = spec_bugs[0]
         raise MachineryError(f"{len(spec_bugs)} transfers where the specification disagrees with C git or the harness built a "
-                             f"case outside the property: {clause} {j['op']}/{j['transport']} {case_key(j)} caps={caps_key(j)} "
-                             f"detail={detail} err={r['err']}")
+                             f"case outside the property: {clause} {j['op']}/{j['transport']} {case_key(j)}{steps_key(j, r)} "
+                             f"caps={caps_key(j)} detail={detail} err={r['err']} info={r['info']}")
     for (site, clause), lst in sorted(viol.items()):
         lst.sort(key=lambda x: size_key(x[0]))
+        if clause == "shallow-info":
+            j, r, detail = lst[0]
+            what = (f"depth-limited fetch into a repository that has history loses the shallow boundary: e.g. {j['op']} over "
+                    f"{j['transport']} of {case_key(j)}{steps_key(j, r)}: .git/shallow = {r['shal1']}, missing {detail}; "
+                    f"{len(lst)} executions in this run")
+            if ctx.violation(SHALLOW_LOOP_SIG, what, {"job": j, "record": r, "clause": "ReceiverComplete", "detail": detail}):
+                cnt["violations"] += 1
+            continue
         # one report per (site, clause, capability set) for the smallest case (at most three
         # capability sets), the rest counted
         seen = set()
@@ -397,8 +503,8 @@ def report(ctx, jobs, recs, verdicts):
             if ck in seen or len(seen) >= 3:
                 continue
             seen.add(ck)
-            sig = f"{site}|{clause}|{j['op']}/{j['transport']} {caps_key(j)} {case_key(j)}"
-            what = (f"{clause}: {j['op']} over {j['transport']} ({caps_key(j)}) of {case_key(j)}: "
+            sig = f"{site}|{clause}|{j['op']}/{j['transport']} {caps_key(j)} {case_key(j)}{steps_key(j, r)}"
+            what = (f"{clause}: {j['op']} over {j['transport']} ({caps_key(j)}) of {case_key(j)}{steps_key(j, r)}: "
                     f"missing/offending objects {detail}; {len(lst)} failing executions of this kind in this run")
             if ctx.violation(sig, what, {"job": j, "record": r, "clause": clause, "detail": detail}):
                 cnt["violations"] += 1
@@ -408,10 +514,10 @@ def report(ctx, jobs, recs, verdicts):
         cnt["drift"] += len(lst)
         for _ in range(len(lst) - 1):
             ctx.cov["drift"] += 1
-        ctx.drift_event(f"{site} {sh}: {j['op']}/{j['transport']} {caps_key(j)} {case_key(j)} detail={detail} "
+        ctx.drift_event(f"{site} {sh}: {j['op']}/{j['transport']} {caps_key(j)} {case_key(j)}{steps_key(j, r)} detail={detail} "
                         f"srv={r['srv']} cli={r['cli']} ({len(lst)} executions)")
     ctx.cov.setdefault("failed_transfers", {})
-    for k, v in sorted(fails.items(), key=lambda kv: -kv[1])[:12]:
+    for k, v in sorted(fails.items(), key=lambda kv: -kv[1])[:25]:
         ctx.cov["failed_transfers"][k] = ctx.cov["failed_transfers"].get(k, 0) + v
     return cnt
 
@@ -420,10 +526,11 @@ def report(ctx, jobs, recs, verdicts):
 def run(ctx):
     d = ctx.tmpdir("c05")
     seed = ctx.seed
-    spaces = ["neg3", "obj2", "pop2"] if ctx.quick else ["neg3", "obj2", "pop2", "neg4", "obj3", "tag2", "pop3"]
-    # how many cases of each space are replayed (deterministic sample, see TransferCases)
-    sample_mod = ctx.pick({"neg3": 23, "obj2": 47, "pop2": 0}, {"neg3": 1, "obj2": 2, "pop2": 0, "neg4": 23, "obj3": 151,
-                                                               "tag2": 29, "pop3": 0})
+    spaces = ["neg3", "obj2", "pop2"] if ctx.quick else ["neg3", "obj2", "pop2", "neg4", "obj2w", "obj3", "tag2", "pop3"]
+    # how many cases of each space are replayed: 1 / sample_mod of them (deterministic sample, see
+    # TransferCases); 0 = none (the space only differs from another one in the model's pop order)
+    sample_mod = ctx.pick({"neg3": 37, "obj2": 47, "pop2": 0},
+                          {"neg3": 2, "obj2": 3, "pop2": 0, "neg4": 11, "obj2w": 17, "obj3": 211, "tag2": 53, "pop3": 0})
     tex = cf.ThreadPoolExecutor(max_workers=8)
     cases_f, mc_f, nc_f = {}, {}, {}
     for sp in spaces:
@@ -434,7 +541,7 @@ def run(ctx):
                                      dump_states=os.path.join(d, "cases_" + sp))
     for sp in spaces:
         cfg = write_cfg(d, "mc_" + sp, SPACES[sp], spec="Spec", invariants=INVARIANTS)
-        mc_f[sp] = tex.submit(TOKENS.run, "Transfer.tla", cfg, workers=ctx.pick(3, 4), timeout=3400)
+        mc_f[sp] = tex.submit(run_big, "Transfer.tla", cfg, workers=ctx.pick(2, 5), timeout=3400)
     for name, (consts, inv) in NEGATIVE.items():
         cfg = write_cfg(d, name, consts, spec="Spec", invariants=INVARIANTS)
         nc_f[name] = tex.submit(TOKENS.run, "Transfer.tla", cfg, workers=1, timeout=1200)
@@ -451,22 +558,24 @@ def run(ctx):
         n = 0
         for k, stt in enumerate(tlc.load_state_dump(os.path.join(d, "cases_" + sp))):
             c = case_from_state(stt["cs"])
-            for j in jobs_for_case(ctx, c, sp, k, ctx.pick(6, 5), tid):
-                tid += 1
+            for j in jobs_for_case(ctx, c, sp, k, ctx.pick(8, 7), tid):
+                tid += 4
                 j["tid"] = tid
-                jobs[tid] = j
+                for st in range(4):
+                    jobs[tid + st] = j
             n += 1
         per_space[sp] = n
         ctx.log(f"TransferCases[{sp}]: {res.distinct} cases enumerated by TLC ({res.wall_s:.1f}s) -> {n} replayed")
-    n_enum = len(jobs)
+    n_enum = len(jobs) // 4
     for j in extra_jobs(ctx):
-        tid += 1
+        tid += 4
         j["tid"] = tid
-        jobs[tid] = j
-    ctx.log(f"{n_enum} executions of TLC-enumerated cases + {len(jobs) - n_enum} of larger seeded cases")
+        for st in range(4):
+            jobs[tid + st] = j
+    ctx.log(f"{n_enum} jobs from TLC-enumerated cases + {len(jobs) // 4 - n_enum} from larger seeded cases")
 
     nproc = ctx.pick(8, 10)
-    order = sorted(jobs.values(), key=lambda j: (h32(j["tid"]) % 997))
+    order = sorted({j["tid"]: j for j in jobs.values()}.values(), key=lambda j: (h32(j["tid"]) % 997))
     batches = [order[i:i + 24] for i in range(0, len(order), 24)]
     recs = []
     t0 = time.time()
@@ -479,7 +588,7 @@ def run(ctx):
     ctx.log(f"{len(recs)} transfers executed on the real code in {time.time() - t0:.1f}s")
 
     # ---- code -> spec: TLC judges every execution
-    verdicts = judge(ctx, d, recs, "all", nproc=ctx.pick(4, 6))
+    verdicts = judge(ctx, d, recs, "all", nproc=3)
     cnt = report(ctx, jobs, recs, verdicts)
 
     # ---- model checking results
